@@ -61,7 +61,7 @@ def _key_impl(kname):
     return lambda x: x.key
 
 
-def gb_side(case, sync, fault=None, fnfl=None):
+def gb_side(case, sync, fault=None, fnfl=None, cont=False):
     """Run the operation sequence on itertools.groupby (sync=True) or asyncstdlib.groupby.
 
     Returns dict(results, log, src, fn).  ``fault``: tools.Fault on ("src", 0, k) or ("fn", 0, k).
@@ -111,7 +111,8 @@ def gb_side(case, sync, fault=None, fnfl=None):
                         results.append(("gend",))
             except BaseException as exc:  # noqa: BLE001
                 results.append(term(exc))
-                break
+                if not cont:
+                    break
     else:
         src = make_source(st, case["flav"])
         if fnfl is None:
@@ -141,7 +142,8 @@ def gb_side(case, sync, fault=None, fnfl=None):
                             results.append(("gend",))
                 except BaseException as exc:  # noqa: BLE001
                     results.append(term(exc))
-                    break
+                    if not cont:
+                        break
 
         drive(main())
     log = [e for e in CTX.log if e[0] in ("op", "pull", "end", "call", "fault")]
